@@ -117,13 +117,13 @@ def custom(ctx):
 
 SPEC = {
     "id": "C12",
-    "gens": ["MacroTables"],
+    "gens": ["MacroTables", "LexTables"],
     "lean_modules": ["RsslVerif.Thm.C12", "RsslVerif.Thm.C12Boundary"],
     "theorems": [T + n for n in [
         "source_shape", "expand_terminates", "expand_never_hangs", "object_like_is_substitution", "function_like_is_substitution",
         "define_undef_scoping", "macro_names_always_distinct", "api_defines_equal_file_defines",
         "expand_refines_spec_partial", "expand_refines_spec", "expand_refines_spec_decided", "object_like_refines_spec",
-        "trailing_function_name_is_invoked",
+        "trailing_function_name_is_invoked", "paste_is_single_token", "paste_matches_lexer",
         "include_is_paste", "pragma_once_once",
         "differs_line_end_before_parenthesis", "differs_unused_argument_expanded", "differs_argument_repainted",
         "differs_painted_function_name_reinvoked", "differs_painted_function_name_reinvoked_acyclic",
